@@ -1,10 +1,15 @@
 """C01 Customer conservation."""
 from ..families import *
 from .. import universal
+from ..history import History, markers
 
 
 class Monitor(object):
     prop = "C01"
+
+    def violate(self, clause, detail):
+        detail["history"] = markers(self.hub)
+        self.hub.violate("C01", clause, detail)
 
     def __init__(self):
         self.validated = 0
@@ -30,37 +35,37 @@ class Monitor(object):
         for nd in Q.transitive_nodes:
             inds = nd.all_individuals
             if nd.number_of_individuals != len(inds):
-                hub.violate("C01", "population_count", {"node": nd.id_number, "reported": nd.number_of_individuals, "actual": len(inds)})
+                self.violate("population_count", {"node": nd.id_number, "reported": nd.number_of_individuals, "actual": len(inds)})
             total += len(inds)
             for ind in inds:
                 i = ind.id_number
                 if i in seen:
-                    hub.violate("C01", "duplicated", {"id": i, "places": [seen[i], nd.id_number]})
+                    self.violate("duplicated", {"id": i, "places": [seen[i], nd.id_number]})
                 seen[i] = nd.id_number
                 if ind.node != nd.id_number:
-                    hub.violate("C01", "node_attribute", {"id": i, "ind.node": ind.node, "held_by": nd.id_number})
+                    self.violate("node_attribute", {"id": i, "ind.node": ind.node, "held_by": nd.id_number})
         ex = Q.nodes[-1]
         exl = ex.all_individuals
         if ex.number_of_individuals != len(exl):
-            hub.violate("C01", "population_count", {"node": -1, "reported": ex.number_of_individuals, "actual": len(exl)})
+            self.violate("population_count", {"node": -1, "reported": ex.number_of_individuals, "actual": len(exl)})
         ids = [ind.id_number for ind in exl]
         for i in ids:
             if i in seen:
-                hub.violate("C01", "duplicated", {"id": i, "places": [seen[i], -1]})
+                self.violate("duplicated", {"id": i, "places": [seen[i], -1]})
             seen[i] = -1
         total += len(exl)
         if ids[:len(self.exit_ids)] != self.exit_ids:
-            hub.violate("C01", "exit_not_final", {"before": self.exit_ids, "now": ids})
+            self.violate("exit_not_final", {"before": self.exit_ids, "now": ids})
         self.exit_ids = ids
         if A < self.prevA:
-            hub.violate("C01", "arrival_counter_decreased", {"before": self.prevA, "now": A})
+            self.violate("arrival_counter_decreased", {"before": self.prevA, "now": A})
         self.prevA = A
         if len(seen) != A or (A and (min(seen) != 1 or max(seen) != A)):
             missing = sorted(set(range(1, A + 1)) - set(seen))
             extra = sorted(set(seen) - set(range(1, A + 1)))
-            hub.violate("C01", "ids_not_1_to_N", {"arrivals": A, "missing": missing, "unexpected": extra})
+            self.violate("ids_not_1_to_N", {"arrivals": A, "missing": missing, "unexpected": extra})
         if total != A:
-            hub.violate("C01", "arrivals_ne_nodes_plus_exit", {"arrivals": A, "located": total})
+            self.violate("arrivals_ne_nodes_plus_exit", {"arrivals": A, "located": total})
         if A >= 2:
             hub.flags.add("multi")
         if len(exl) >= 1:
@@ -78,7 +83,7 @@ class Spec(object):
     ]
 
     def monitors(self, cfg):
-        return [Monitor()]
+        return [History(), Monitor()]
 
     def nontrivial(self, cfg, res):
         return "multi" in res.flags and "exited" in res.flags
